@@ -661,7 +661,7 @@ func (w *World) snapshot() []ISnap {
 		}
 		break
 	}
-	fine := w.fineOn || len(w.parked) > 0
+	fine := len(w.parked) > 0 // a goroutine is parked at a scheduling point, possibly inside a critical section
 	for i := range snaps {
 		snaps[i].Fine = fine
 		if snaps[i].Blocked && !fine {
